@@ -29,26 +29,39 @@ CONSTANTS
     Slots,          \* route slots: records [host |-> STRING, path |-> Seq(STRING)]
     Tables,         \* the tables SetTable may install: functions Slots -> Backends \cup {""}
     CallUniverse,   \* call descriptions, see GrpcProxy_MC
-    MaxCalls, MaxSets, MaxTicks,
-    CleanupCloses   \* TRUE = the design.  FALSE = a deviation ("pool entries are never
+    BurstUniverse,  \* call descriptions used for bursts of overlapping first calls
+    BurstSizes,     \* how many calls overlap in a burst
+    MaxCalls, MaxSets, MaxTicks, MaxDowns, MaxBursts,
+    CleanupCloses,  \* TRUE = the design.  FALSE = a deviation ("pool entries are never
                     \* deleted") kept only to show that the pool invariants are not vacuous.
+    PoolRace        \* what a call does that dialled because it found no pool entry and then finds
+                    \* one when it stores its connection:
+                    \*   "recheck"        the design: close the own (unused) connection, use the stored one
+                    \*   "overwrite"      deviation: store anyway; the replaced connection stays open for ever
+                    \*   "close-replaced" deviation: store anyway and close the replaced one -- which may
+                    \*                    carry another call
 
 VARIABLES
     table,      \* Slots -> Backends \cup {""}      ("" = slot not in the table)
-    pool,       \* backends that have a pooled connection (pool key = target URL)
+    pool,       \* backends that have a pooled connection object (pool key = target URL)
     stale,      \* subset of pool: the backend was missing from some table since the entry was made
-    closing,    \* Backends -> Nat: connections taken out of the pool, not yet closed
-    open,       \* Backends -> Nat: connections currently open at the backend
+    live,       \* subset of pool: the pooled connection is established at the backend right now
+    closing,    \* Backends -> Nat: established connections taken out of the pool, not yet closed
+    open,       \* Backends -> Nat: connections currently open at the backend's listener
     accepted,   \* Backends -> Nat: connections the backend ever accepted
+    up,         \* Backends -> BOOLEAN: the backend listens (FALSE = outage)
     cur,        \* the call in flight
-    cnt,        \* [calls, sets, ticks]: bounds of the exploration
+    bst,        \* the burst of overlapping first calls in flight
+    cnt,        \* [calls, sets, ticks, downs, bursts, unav]: bounds of the exploration
     hist        \* completed steps with what an observer must have seen (not in the VIEW)
 
-vars == <<table, pool, stale, closing, open, accepted, cur, cnt, hist>>
+net == <<pool, stale, live, closing, open, accepted, up>>
+vars == <<table, pool, stale, live, closing, open, accepted, up, cur, bst, cnt, hist>>
 
 -----------------------------------------------------------------------------
 NoBackend == ""
 Idle == [pc |-> "idle"]
+Quiet == cur.pc = "idle" /\ bst.pc = "idle"
 Targets(t) == {t[s] : s \in Slots} \ {NoBackend}
 
 IsPrefix(p, q) == Len(p) <= Len(q) /\ \A i \in 1..Len(p) : p[i] = q[i]
@@ -71,12 +84,13 @@ Min(a, b) == IF a < b THEN a ELSE b
 -----------------------------------------------------------------------------
 Init ==
     /\ table \in Tables
-    /\ pool = {} /\ stale = {}
+    /\ pool = {} /\ stale = {} /\ live = {}
     /\ closing = [b \in Backends |-> 0]
     /\ open = [b \in Backends |-> 0]
     /\ accepted = [b \in Backends |-> 0]
-    /\ cur = Idle
-    /\ cnt = [calls |-> 0, sets |-> 0, ticks |-> 0]
+    /\ up = [b \in Backends |-> TRUE]
+    /\ cur = Idle /\ bst = Idle
+    /\ cnt = [calls |-> 0, sets |-> 0, ticks |-> 0, downs |-> 0, bursts |-> 0, unav |-> 0]
     /\ hist = <<[op |-> "set", table |-> table]>>
 
 \* The control plane installs another table (between calls).
@@ -86,57 +100,86 @@ SetTable(t) ==
     /\ stale' = stale \cup (pool \ Targets(t))
     /\ cnt' = [cnt EXCEPT !.sets = @ + 1]
     /\ hist' = Append(hist, [op |-> "set", table |-> t])
-    /\ UNCHANGED <<pool, closing, open, accepted, cur>>
+    /\ UNCHANGED <<pool, live, closing, open, accepted, up, cur, bst>>
 
 CallStart(c) ==
     /\ cur' = [pc |-> "start", c |-> c, be |-> NoBackend, conn |-> "none", acc0 |-> accepted,
                bgot |-> <<>>, beof |-> FALSE, cgot |-> <<>>, ord |-> <<>>,
-               code |-> -1, msg |-> "", hdr |-> "none", trl |-> "none"]
+               code |-> -1, msg |-> "", hdr |-> "none", trl |-> "none", unav |-> "no"]
     /\ cnt' = [cnt EXCEPT !.calls = @ + 1]
-    /\ UNCHANGED <<table, pool, stale, closing, open, accepted, hist>>
+    /\ UNCHANGED <<table, net, bst, hist>>
 
 Route ==
     /\ cur.pc = "start" /\ Best(table, cur.c.host, cur.c.path) # NoBackend
     /\ cur' = [cur EXCEPT !.pc = "routed", !.be = Best(table, cur.c.host, cur.c.path)]
-    /\ UNCHANGED <<table, pool, stale, closing, open, accepted, cnt, hist>>
+    /\ UNCHANGED <<table, net, bst, cnt, hist>>
 
 CallRecord == [op |-> "call", call |-> cur'.c, be |-> cur'.be, conn |-> cur'.conn,
                bgot |-> cur'.bgot, beof |-> cur'.beof, cgot |-> cur'.cgot, ord |-> cur'.ord,
-               code |-> cur'.code, msg |-> cur'.msg, hdr |-> cur'.hdr, trl |-> cur'.trl]
+               code |-> cur'.code, msg |-> cur'.msg, hdr |-> cur'.hdr, trl |-> cur'.trl, unav |-> cur'.unav]
 
 \* NotFound is the proxy's own answer; no backend is involved.
 NotFound ==
     /\ cur.pc = "start" /\ Best(table, cur.c.host, cur.c.path) = NoBackend
     /\ cur' = [cur EXCEPT !.pc = "done", !.code = 5, !.msg = "*"]
     /\ hist' = Append(hist, CallRecord)
-    /\ UNCHANGED <<table, pool, stale, closing, open, accepted, cnt>>
+    /\ UNCHANGED <<table, net, bst, cnt>>
 
 Dial ==
-    /\ cur.pc = "routed" /\ cur.be \notin pool
+    /\ cur.pc = "routed" /\ cur.be \notin pool /\ up[cur.be]
     /\ pool' = pool \cup {cur.be}
+    /\ live' = live \cup {cur.be}
     /\ open' = [open EXCEPT ![cur.be] = @ + 1]
     /\ accepted' = [accepted EXCEPT ![cur.be] = @ + 1]
     /\ cur' = [cur EXCEPT !.pc = "open", !.conn = "dial"]
-    /\ UNCHANGED <<table, stale, closing, cnt, hist>>
+    /\ UNCHANGED <<table, stale, closing, up, bst, cnt, hist>>
 
 \* A stale entry may silently have been cleaned up in the meantime (the clean-up runs on a
 \* timer of its own): an observer cannot tell which, hence conn = "may".
 Reuse ==
-    /\ cur.pc = "routed" /\ cur.be \in pool
+    /\ cur.pc = "routed" /\ cur.be \in live
     /\ cur' = [cur EXCEPT !.pc = "open", !.conn = IF cur.be \in stale THEN "may" ELSE "reuse"]
     /\ stale' = stale \ {cur.be}
-    /\ UNCHANGED <<table, pool, closing, open, accepted, cnt, hist>>
+    /\ UNCHANGED <<table, pool, live, closing, open, accepted, up, bst, cnt, hist>>
+
+\* The backend of the route does not listen: the call cannot be forwarded.  The statement says
+\* nothing about its status; what matters is what happens to the connections.  The pool keeps
+\* (or makes) its one connection object for the backend, which is not established.
+Unavailable ==
+    /\ cur.pc = "routed" /\ ~up[cur.be]
+    /\ pool' = pool \cup {cur.be}
+    /\ cur' = [cur EXCEPT !.pc = "done", !.code = 14, !.msg = "*", !.unav = "yes"]
+    /\ cnt' = [cnt EXCEPT !.unav = @ + 1]      \* calls refused during the outages so far
+    /\ hist' = Append(hist, CallRecord)
+    /\ UNCHANGED <<table, stale, live, closing, open, accepted, up, bst>>
+
+\* The backend listens again and the pooled connection object re-establishes itself (gRPC does
+\* that after a back-off of its own) -- with this call ...
+Reconnect ==
+    /\ cur.pc = "routed" /\ cur.be \in pool \ live /\ up[cur.be]
+    /\ live' = live \cup {cur.be}
+    /\ open' = [open EXCEPT ![cur.be] = @ + 1]
+    /\ accepted' = [accepted EXCEPT ![cur.be] = @ + 1]
+    /\ stale' = stale \ {cur.be}
+    /\ cur' = [cur EXCEPT !.pc = "open", !.conn = "reconnect"]
+    /\ UNCHANGED <<table, pool, closing, up, bst, cnt, hist>>
+\* ... or not yet: the call still fails
+StillBackingOff ==
+    /\ cur.pc = "routed" /\ cur.be \in pool \ live /\ up[cur.be]
+    /\ cur' = [cur EXCEPT !.pc = "done", !.code = 14, !.msg = "*", !.unav = "may"]
+    /\ hist' = Append(hist, CallRecord)
+    /\ UNCHANGED <<table, net, bst, cnt>>
 
 MsgToBackend ==
     /\ cur.pc = "open" /\ Len(cur.bgot) < Reads(cur.c)
     /\ cur' = [cur EXCEPT !.bgot = Append(@, cur.c.reqs[Len(cur.bgot) + 1]), !.ord = Append(@, "q")]
-    /\ UNCHANGED <<table, pool, stale, closing, open, accepted, cnt, hist>>
+    /\ UNCHANGED <<table, net, bst, cnt, hist>>
 
 EofToBackend ==
     /\ cur.pc = "open" /\ HasEOF(cur.c) /\ ~cur.c.early /\ ~cur.beof
     /\ Len(cur.bgot) = Len(cur.c.reqs)
     /\ cur' = [cur EXCEPT !.beof = TRUE, !.ord = Append(@, "e")]
-    /\ UNCHANGED <<table, pool, stale, closing, open, accepted, cnt, hist>>
+    /\ UNCHANGED <<table, net, bst, cnt, hist>>
 
 \* the backend's script says when it is willing to send response j
 ReqsDone == IF HasEOF(cur.c) THEN cur.beof ELSE Len(cur.bgot) = Len(cur.c.reqs)
@@ -150,7 +193,7 @@ GateOK(j) ==
 MsgToCaller ==
     /\ cur.pc = "open" /\ Len(cur.cgot) < Len(cur.c.resps) /\ GateOK(Len(cur.cgot) + 1)
     /\ cur' = [cur EXCEPT !.cgot = Append(@, cur.c.resps[Len(cur.cgot) + 1]), !.ord = Append(@, "r")]
-    /\ UNCHANGED <<table, pool, stale, closing, open, accepted, cnt, hist>>
+    /\ UNCHANGED <<table, net, bst, cnt, hist>>
 
 \* The backend ends the call; the caller sees its status, trailers, and (having received a
 \* message) its headers.
@@ -161,42 +204,136 @@ Finish ==
                           !.hdr = IF Len(cur.c.resps) > 0 THEN cur.c.hdr ELSE "any",
                           !.ord = Append(@, "f")]
     /\ hist' = Append(hist, CallRecord)
-    /\ UNCHANGED <<table, pool, stale, closing, open, accepted, cnt>>
+    /\ UNCHANGED <<table, net, bst, cnt>>
 
 Return ==
     /\ cur.pc = "done"
     /\ cur' = Idle
-    /\ UNCHANGED <<table, pool, stale, closing, open, accepted, cnt, hist>>
+    /\ UNCHANGED <<table, net, bst, cnt, hist>>
 
 \* The periodic clean-up: every pooled connection whose backend is not in the table is taken
 \* out of the pool and scheduled for closing.
 CleanupTick ==
-    /\ cur.pc = "idle" /\ cnt.ticks < MaxTicks
+    /\ Quiet /\ cnt.ticks < MaxTicks
     /\ LET gone == IF CleanupCloses THEN pool \ Targets(table) ELSE {} IN
        /\ pool' = pool \ gone
        /\ stale' = stale \ gone
-       /\ closing' = [b \in Backends |-> closing[b] + IF b \in gone THEN 1 ELSE 0]
-       /\ hist' = Append(hist, [op |-> "tick", closed |-> gone, pooled |-> pool \ gone])
+       /\ live' = live \ gone
+       /\ closing' = [b \in Backends |-> closing[b] + IF b \in gone \cap live THEN 1 ELSE 0]
+       /\ hist' = Append(hist, [op |-> "tick", closed |-> gone, pooled |-> (live \ gone) \ stale])
     /\ cnt' = [cnt EXCEPT !.ticks = @ + 1]
-    /\ UNCHANGED <<table, open, accepted, cur>>
+    /\ UNCHANGED <<table, open, accepted, up, cur, bst>>
 
 Drop(b) ==
     /\ closing[b] > 0
     /\ closing' = [closing EXCEPT ![b] = @ - 1]
     /\ open' = [open EXCEPT ![b] = @ - 1]
-    /\ UNCHANGED <<table, pool, stale, accepted, cur, cnt, hist>>
+    /\ UNCHANGED <<table, pool, stale, live, accepted, up, cur, bst, cnt, hist>>
+
+-----------------------------------------------------------------------------
+\* Outages: a backend that is in the table stops listening (every connection to it dies) and
+\* later listens again on the same address.
+BackendDown(b) ==
+    /\ Quiet /\ up[b] /\ cnt.downs < MaxDowns
+    /\ up' = [up EXCEPT ![b] = FALSE]
+    /\ live' = live \ {b}
+    /\ open' = [open EXCEPT ![b] = 0]
+    /\ closing' = [closing EXCEPT ![b] = 0]
+    /\ cnt' = [cnt EXCEPT !.downs = @ + 1]
+    /\ hist' = Append(hist, [op |-> "down", be |-> b])
+    /\ UNCHANGED <<table, pool, stale, accepted, cur, bst>>
+
+BackendUp(b) ==
+    /\ Quiet /\ ~up[b]
+    /\ up' = [up EXCEPT ![b] = TRUE]
+    /\ hist' = Append(hist, [op |-> "up", be |-> b])
+    /\ UNCHANGED <<table, pool, stale, live, closing, open, accepted, cur, bst, cnt>>
+
+-----------------------------------------------------------------------------
+\* A burst: n calls for a backend the pool has no connection object for yet, overlapping.  Each
+\* call looks the pool up (Get), finding nothing makes a connection object (Dial), stores it
+\* (Set), and runs on the connection it ended up with (Fly .. Land).  A connection is established
+\* at the backend when the first call flies on it.
+BurstStart(c, n) ==
+    /\ Quiet /\ cnt.bursts < MaxBursts
+    /\ LET b == Best(table, c.host, c.path) IN
+       /\ b # NoBackend /\ b \notin pool /\ up[b]
+       /\ bst' = [pc |-> "run", c |-> c, be |-> b, n |-> n,
+                  st |-> [i \in 1..n |-> "get"], using |-> [i \in 1..n |-> 0],
+                  entry |-> 0, alive |-> {}, conn |-> {}]
+    /\ cnt' = [cnt EXCEPT !.bursts = @ + 1]
+    /\ UNCHANGED <<table, net, cur, hist>>
+
+BGet(i) ==
+    /\ bst.pc = "run" /\ bst.st[i] = "get"
+    /\ bst' = IF bst.entry # 0
+              THEN [bst EXCEPT !.st[i] = "ready", !.using[i] = bst.entry]
+              ELSE [bst EXCEPT !.st[i] = "dial"]
+    /\ UNCHANGED <<table, net, cur, cnt, hist>>
+
+BDial(i) ==
+    /\ bst.pc = "run" /\ bst.st[i] = "dial"
+    /\ bst' = [bst EXCEPT !.st[i] = "set", !.alive = @ \cup {i}]
+    /\ UNCHANGED <<table, net, cur, cnt, hist>>
+
+BSet(i) ==
+    /\ bst.pc = "run" /\ bst.st[i] = "set"
+    /\ IF bst.entry = 0 \/ PoolRace = "overwrite"
+       THEN /\ bst' = [bst EXCEPT !.st[i] = "ready", !.using[i] = i, !.entry = i]
+            /\ UNCHANGED open
+       ELSE IF PoolRace = "recheck"
+       THEN /\ bst' = [bst EXCEPT !.st[i] = "ready", !.using[i] = bst.entry, !.alive = @ \ {i}]
+            /\ UNCHANGED open
+       ELSE \* "close-replaced"
+            /\ bst' = [bst EXCEPT !.st[i] = "ready", !.using[i] = i, !.entry = i,
+                                  !.alive = @ \ {bst.entry}, !.conn = @ \ {bst.entry}]
+            /\ open' = [open EXCEPT ![bst.be] = @ - IF bst.entry \in bst.conn THEN 1 ELSE 0]
+    /\ UNCHANGED <<table, pool, stale, live, closing, accepted, up, cur, cnt, hist>>
+
+\* the call is put on its connection; the first one establishes it
+BFly(i) ==
+    /\ bst.pc = "run" /\ bst.st[i] = "ready"
+    /\ LET k == bst.using[i] IN
+       IF k \in bst.alive
+       THEN /\ bst' = [bst EXCEPT !.st[i] = "fly", !.conn = @ \cup {k}]
+            /\ open' = [open EXCEPT ![bst.be] = @ + IF k \in bst.conn THEN 0 ELSE 1]
+            /\ accepted' = [accepted EXCEPT ![bst.be] = @ + IF k \in bst.conn THEN 0 ELSE 1]
+       ELSE /\ bst' = [bst EXCEPT !.st[i] = "cancelled"]
+            /\ UNCHANGED <<open, accepted>>
+    /\ UNCHANGED <<table, pool, stale, live, closing, up, cur, cnt, hist>>
+
+\* the call ends: with the backend's answer if its connection is still there
+BLand(i) ==
+    /\ bst.pc = "run" /\ bst.st[i] = "fly"
+    /\ bst' = [bst EXCEPT !.st[i] = IF bst.using[i] \in bst.alive THEN "done" ELSE "cancelled"]
+    /\ UNCHANGED <<table, net, cur, cnt, hist>>
+
+BurstEnd ==
+    /\ bst.pc = "run" /\ \A i \in 1..bst.n : bst.st[i] \in {"done", "cancelled"}
+    /\ pool' = pool \cup {bst.be}
+    /\ live' = live \cup {bst.be}
+    /\ hist' = Append(hist, [op |-> "burst", call |-> bst.c, be |-> bst.be, n |-> bst.n,
+                             served |-> Cardinality({i \in 1..bst.n : bst.st[i] = "done"}),
+                             open |-> Cardinality(bst.conn)])
+    /\ bst' = Idle
+    /\ UNCHANGED <<table, stale, closing, open, accepted, up, cur, cnt>>
 
 \* (the guards come first so that the universes are only enumerated where they can apply)
-SetTableAny == cur.pc = "idle" /\ cnt.sets < MaxSets /\ \E t \in Tables : SetTable(t)
-CallStartAny == cur.pc = "idle" /\ cnt.calls < MaxCalls /\ \E c \in CallUniverse : CallStart(c)
+SetTableAny == Quiet /\ cnt.sets < MaxSets /\ \E t \in Tables : SetTable(t)
+CallStartAny == Quiet /\ cnt.calls < MaxCalls /\ \E c \in CallUniverse : CallStart(c)
+BurstStartAny == Quiet /\ cnt.bursts < MaxBursts /\ \E c \in BurstUniverse, n \in BurstSizes : BurstStart(c, n)
+BurstStep == bst.pc = "run" /\ \E i \in 1..bst.n : BGet(i) \/ BDial(i) \/ BSet(i) \/ BFly(i) \/ BLand(i)
+Outage == \E b \in Backends : BackendDown(b) \/ BackendUp(b)
 
 Next ==
     \/ SetTableAny
     \/ CallStartAny
-    \/ Route \/ NotFound \/ Dial \/ Reuse
+    \/ Route \/ NotFound \/ Dial \/ Reuse \/ Unavailable \/ Reconnect \/ StillBackingOff
     \/ MsgToBackend \/ EofToBackend \/ MsgToCaller \/ Finish \/ Return
     \/ CleanupTick
     \/ \E b \in Backends : Drop(b)
+    \/ Outage
+    \/ BurstStartAny \/ BurstStep \/ BurstEnd
 
 Spec == Init /\ [][Next]_vars
 
@@ -205,11 +342,9 @@ Spec == Init /\ [][Next]_vars
 
 TypeOK ==
     /\ table \in [Slots -> Backends \cup {NoBackend}]
-    /\ pool \subseteq Backends /\ stale \subseteq pool
-    /\ \A b \in Backends : closing[b] \in 0..MaxTicks /\ open[b] \in 0..(MaxTicks + 1)
-                           /\ accepted[b] \in 0..MaxCalls
-
-InFlight == cur.pc \in {"open", "done"}
+    /\ pool \subseteq Backends /\ stale \subseteq pool /\ live \subseteq pool
+    /\ \A b \in Backends : closing[b] \in Nat /\ open[b] \in Nat /\ accepted[b] \in Nat /\ up[b] \in BOOLEAN
+    /\ \A b \in live : up[b]
 
 \* order, exactly once, unmodified -- at every moment of a call
 OrderedExactlyOnce ==
@@ -217,16 +352,20 @@ OrderedExactlyOnce ==
         /\ IsPrefix(cur.bgot, cur.c.reqs)
         /\ IsPrefix(cur.cgot, cur.c.resps)
 
-\* a finished, routed call: everything the backend read is what was sent, everything the
-\* backend sent reached the caller, and the caller's status is the backend's
+\* a finished call that was forwarded: everything the backend read is what was sent, everything
+\* the backend sent reached the caller, and the caller's status is the backend's
+Forwarded == cur.pc = "done" /\ cur.be # NoBackend /\ cur.unav = "no"
 Transparent ==
-    (cur.pc = "done" /\ cur.be # NoBackend) =>
+    Forwarded =>
         /\ cur.bgot = SubSeq(cur.c.reqs, 1, Reads(cur.c))
         /\ cur.cgot = cur.c.resps
         /\ cur.code = cur.c.code /\ cur.msg = cur.c.msg /\ cur.trl = cur.c.trl
         /\ (Len(cur.c.resps) > 0 => cur.hdr = cur.c.hdr)
         /\ cur.be \in Targets(table)
         /\ cur.be = Best(table, cur.c.host, cur.c.path)
+\* a call is forwarded whenever its route's backend listens and is connected or never was
+ForwardedWhenReachable ==
+    (cur.pc = "done" /\ cur.be # NoBackend /\ cur.unav = "yes") => ~up[cur.be]
 
 NotFoundContactsNobody ==
     (cur.pc = "done" /\ cur.be = NoBackend) =>
@@ -235,21 +374,32 @@ NotFoundContactsNobody ==
         /\ cur.bgot = <<>> /\ cur.cgot = <<>>
         /\ Best(table, cur.c.host, cur.c.path) = NoBackend
 
-\* at most one live connection per backend (plus those already handed to the closer)
+\* at most one established connection per backend (plus those already handed to the closer),
+\* counted at the backend's listener -- whenever no burst is in the air
 OneConnPerBackend ==
-    \A b \in Backends : open[b] = (IF b \in pool THEN 1 ELSE 0) + closing[b]
+    bst.pc = "idle" => \A b \in Backends : open[b] = (IF b \in live THEN 1 ELSE 0) + closing[b]
 
 \* while a backend stays in the table its connection is reused: a new connection is only
 \* ever made for a backend without a pool entry
 ReusedWhileInTable ==
     (cur.pc = "open" /\ cur.conn = "dial") => accepted[cur.be] = cur.acc0[cur.be] + 1
 DialOnlyWithoutEntry ==
-    [][(cur'.pc = "open" /\ cur.pc = "routed" /\ cur.be \in pool) => accepted' = accepted]_vars
+    [][(cur'.pc = "open" /\ cur.pc = "routed" /\ cur.be \in live) => accepted' = accepted]_vars
 
 \* after a clean-up tick no pooled connection belongs to a backend outside the table, and
 \* whatever was taken out is closed once the closer ran (Drop): nothing else keeps it open
 CleanedAfterTick ==
     hist[Len(hist)].op = "tick" => pool \subseteq Targets(table)
 ClosedWhenDropped ==
-    (\A b \in Backends : closing[b] = 0) => \A b \in Backends : open[b] = (IF b \in pool THEN 1 ELSE 0)
+    (bst.pc = "idle" /\ \A b \in Backends : closing[b] = 0) =>
+        \A b \in Backends : open[b] = (IF b \in live THEN 1 ELSE 0)
+
+\* a call is never cancelled because another call raced it to the pool ...
+BurstTransparent ==
+    bst.pc = "run" => \A i \in 1..bst.n : bst.st[i] # "cancelled"
+\* ... and once the burst is over exactly one connection object is left, the pooled one
+BurstLeavesOneConn ==
+    (bst.pc = "run" /\ \A i \in 1..bst.n : bst.st[i] \in {"done", "cancelled"}) =>
+        /\ bst.alive = {bst.entry}
+        /\ bst.conn = {bst.entry}
 =============================================================================
